@@ -213,6 +213,9 @@ func TestC19(t *testing.T) {
 			run(t, wproto.Req{Op: "eval", Src: s}, s != "", false)
 			for _, m := range c12Modes {
 				run(t, wproto.Req{Op: "match", Pats: []string{s}, Mode: m, Src: "a[" + s}, s != "", false)
+				// several patterns: one that matches, s, a better one, the best one
+				run(t, wproto.Req{Op: "match", Pats: []string{"a", s, `a\[`, "*", s + "*"}, Mode: m, Src: "a[" + s}, true, false)
+				run(t, wproto.Req{Op: "match", Pats: []string{"*" + s, s, "[", "?" + s, "*"}, Mode: m, Src: "a[" + s}, true, false)
 			}
 			run(t, wproto.Req{Op: "glob", Src: s, Dir: scratch}, s != "", false)
 			if idx%9973 == 0 {
@@ -221,7 +224,7 @@ func TestC19(t *testing.T) {
 		})
 	}
 	st.Exhaustive = true
-	st.Note("exhaustive: every accepted string of <= %d tokens (both renderings) through Pos()/End() of every node, Fprint (all 256 configurations for strings of <= 2 tokens and every 16th longer one, a rotating window of 8 otherwise), Expand of every word under 8 mode combinations x {nounset on, off} x {with, without positional parameters} in a scratch directory; every string of <= %d symbols over %d special symbols to Eval, Match (4 modes) and Glob; Option.String on all 2^14 values; everything in isolated workers under panicnil=0 and 1", maxn, k, len(special))
+	st.Note("exhaustive: every accepted string of <= %d tokens (both renderings) through Pos()/End() of every node, Fprint (all 256 configurations for strings of <= 2 tokens and every 16th longer one, a rotating window of 8 otherwise), Expand of every word under 8 mode combinations x {nounset on, off} x 6 environments (0-4 positional parameters, empty ones among them; HOME unset, null, /, with a trailing slash; IFS unset, null, with ill-formed bytes, one ill-formed byte, an incomplete character) in a scratch directory; every string of <= %d symbols over %d special symbols to Eval, Match (4 modes; alone and among four other patterns) and Glob; Option.String on all 2^14 values; everything in isolated workers under panicnil=0 and 1", maxn, k, len(special))
 
 	// (b) generated programs and random strings
 	n := 4000
@@ -254,7 +257,14 @@ func TestC19(t *testing.T) {
 				run(rt, wproto.Req{Op: "eval", Src: s}, true, true)
 			case 1:
 				subj := strings.Join(rapid.SliceOfN(rapid.SampledFrom(special), 0, 5).Draw(rt, "subj"), "")
-				run(rt, wproto.Req{Op: "match", Pats: []string{s, subj}, Mode: uint(rapid.IntRange(0, 15).Draw(rt, "mode")), Src: subj}, true, true)
+				pats := []string{s, subj}
+				for i := rapid.IntRange(0, 4).Draw(rt, "more_patterns"); i > 0; i-- {
+					pats = append(pats, rapid.SampledFrom([]string{"a", "*", "?", "zzz", "a*", "*a", "[a-z]", "", s + "*", "*" + s}).Draw(rt, "pattern"))
+				}
+				if rapid.Bool().Draw(rt, "subject_last") {
+					pats[1], pats[len(pats)-1] = pats[len(pats)-1], pats[1]
+				}
+				run(rt, wproto.Req{Op: "match", Pats: pats, Mode: uint(rapid.IntRange(0, 15).Draw(rt, "mode")), Src: subj}, true, true)
 			case 2:
 				run(rt, wproto.Req{Op: "glob", Src: s, Dir: scratch}, true, true)
 			}
